@@ -29,9 +29,26 @@ func BuildConditionTupleKeyFilter(ctx context.Context, model *modelgraph.Authori
 	}
 }
 
+// prunedVisitedKey is stored in a visited set once the set has been used to skip a
+// sub-problem. It cannot collide with an object or object#relation key.
+const prunedVisitedKey = "\x00pruned"
+
 func BuildUniqueTupleKeyFilter(visited *sync.Map, keyFunc func(key *openfgav1.TupleKey) string) iterator.FilterFunc[*openfgav1.TupleKey] {
 	return func(tk *openfgav1.TupleKey) (bool, error) {
 		_, seen := visited.LoadOrStore(keyFunc(tk), struct{}{})
+		if seen {
+			visited.Store(prunedVisitedKey, struct{}{})
+		}
 		return !seen, nil
 	}
+}
+
+// hasPruned reports whether a sub-problem has been skipped because it was already in visited.
+// From then on a negative result is only valid for the resolution that owns the visited set.
+func hasPruned(visited *sync.Map) bool {
+	if visited == nil {
+		return false
+	}
+	_, pruned := visited.Load(prunedVisitedKey)
+	return pruned
 }
